@@ -144,6 +144,10 @@ def execute_real_pair(rec):
         try:
             top.solve(call['T'], solverType=sw.ITER[call['it']], minDtFrac=call['min'], maxDtFrac=call['max'])
         except Exception as e:  # noqa
+            if 'sum up to above 1' in str(e):
+                # the diffusion model's own input validation (the synthetic profile left the admissible domain): end of this run, no verdict on the solver
+                cnt['domain_exit'] = cnt.get('domain_exit', 0) + 1
+                break
             F.add('C05.exception', f'coupled real models, call {ci}: solve raised {type(e).__name__}: {e}', call=ci, exc=type(e).__name__)
             break
         times = [float(t) for t in top.time[n0:]]
